@@ -113,7 +113,7 @@ type mState struct {
 }
 
 type govStep struct {
-	Op      int   `json:"op"`      // index into Ops; -1: NextBlock
+	Op      int   `json:"op"`      // index into Ops; -1: NextBlock; -2: DiscardBlock
 	Restart bool  `json:"restart"` // NextBlock with a node restart
 	Dst     int   `json:"dst"`     // index into States
 	Refuse  []int `json:"refuse"`  // transactions the model refuses in the source state (probed before the step)
@@ -222,8 +222,11 @@ type world struct {
 }
 
 func issueScale(i string) *big.Int {
-	if i == "BPCOUNT" {
+	switch i {
+	case "BPCOUNT":
 		return big.NewInt(1)
+	case "GASPRICE":
+		return big.NewInt(1000000000) // gaer
 	}
 	return aergo
 }
@@ -533,6 +536,28 @@ func (s *sut) nextBlock(no uint64, restart bool) (root []byte, err error) {
 		}
 	}
 	return root, nil
+}
+
+// discardBlock: the block under construction fails validation.  chain.executeBlock returns the error after
+// cs.Update(bestBlock): the block state is dropped, and dpos.Status.Update (rollback branch) reloads the voting
+// power rank from the state of the best block and calls system.CommitParams(false).
+func (s *sut) discardBlock() (err error) {
+	defer func() {
+		if r := recover(); r != nil {
+			err = fmt.Errorf("panic: %v", r)
+		}
+	}()
+	s.bs = s.cdb.NewBlockState(s.cdb.GetRoot())
+	scs, err := statedb.GetSystemAccountState(s.bs.StateDB)
+	if err != nil {
+		return err
+	}
+	if err := system.InitVotingPowerRank(scs); err != nil {
+		return err
+	}
+	system.CommitParams(false)
+	s.hist = append(s.hist, "discard block")
+	return nil
 }
 
 func opString(op govOp) string {
@@ -999,10 +1024,9 @@ func (w *world) diff(want *mState, o *observation, boundary bool) (part, text st
 		if msg := w.rankSorted(i, got.Rank[i], got.Tally[i]); msg != "" {
 			return "rank", msg
 		}
-		if !w.twinTie(got.Tally[i]) || i != "BP" {
-			if !reflect.DeepEqual(append([]string{}, want.Rank[i]...), append([]string{}, got.Rank[i]...)) {
-				return "rank", fmt.Sprintf("ranking of %s %v, model %v", i, got.Rank[i], want.Rank[i])
-			}
+		// the stored ranking, exactly: tally, then id bytes [7:], then the complete id
+		if !reflect.DeepEqual(append([]string{}, want.Rank[i]...), append([]string{}, got.Rank[i]...)) {
+			return "rank", fmt.Sprintf("ranking of %s %v, model %v", i, got.Rank[i], want.Rank[i])
 		}
 		if i != "BP" && want.VTotal[i] != got.VTotal[i] {
 			return "vtotal", fmt.Sprintf("recorded vote total of %s %d, model %d", i, got.VTotal[i], want.VTotal[i])
@@ -1161,6 +1185,9 @@ func guardOf(cfg *govCfg, st *mState, op govOp) string {
 		i := "BP"
 		if op.Name == "VoteDAO" {
 			i = op.I
+		}
+		if op.Name == "VoteDAO" && (op.V <= 0 || (op.I == "BPCOUNT" && op.V > 100)) {
+			return "invalid-value"
 		}
 		if a.Amt == 0 {
 			return "nothing-staked"
@@ -1332,7 +1359,13 @@ func runGraph(in *govGraph, shard, nshards int, res *verifkit.Result, rep *repor
 				var lastOp *govOp
 				opName := "NextBlock"
 				boundary := false
-				if step.Op < 0 {
+				if step.Op == -2 {
+					opName = "DiscardBlock"
+					if err := s.discardBlock(); err != nil {
+						rep.violate(map[string]interface{}{"kind": "exec-error", "op": "DiscardBlock"}, s.replay("graph "+in.Name, nil, ""), "discarding the block: %v", err)
+						return
+					}
+				} else if step.Op < 0 {
 					step.Restart = (pi+si)%2 == 1 // a node restart at every other block boundary (invisible in the model)
 					root, err := s.nextBlock(hm.block(dst.H), step.Restart)
 					if err != nil {
@@ -1520,6 +1553,24 @@ func runRandom(in *govInput, shard, nshards int, res *verifkit.Result, rep *repo
 				if focusLeft > 0 { // right after a jump to the edge of focus' lock period: lock-sensitive transactions by it
 					focusLeft--
 					a, r = focus, 18+rng.Intn(66)
+				}
+				if r >= 18 && rng.Intn(25) == 0 { // the block under construction fails
+					if err := s.discardBlock(); err != nil {
+						rep.violate(map[string]interface{}{"kind": "exec-error", "op": "DiscardBlock"}, s.replay("random", nil, ""), "discarding the block: %v", err)
+						return
+					}
+					if o, err = s.observe(nil); err != nil {
+						rep.violate(map[string]interface{}{"kind": "read-error", "op": "DiscardBlock"}, s.replay("random", nil, ""), "%v", err)
+						return
+					}
+					emit(traceEvent{Ev: "Discard", Obs: w.obsJSON(o)})
+					res.Count(fmt.Sprintf("rdiscard:%d:%d", hi, n))
+					if part, text := w.selfConsistent(o); part != "" {
+						rep.violate(map[string]interface{}{"kind": "invariant", "part": part, "op": "DiscardBlock"}, s.replay("random", nil, ""), "after a failed block: %s", text)
+						return
+					}
+					s.stateChecks(rep, "random", o, nil)
+					continue
 				}
 				switch {
 				case r < 18: // block boundary, often exactly around somebody's lock period
